@@ -6,7 +6,7 @@ Require Import ExtrOcamlBasic.
 Require Import Selium.Base Selium.RustArith Selium.BackoffSpec Selium.BackoffRun.
 Require Import SeliumGen.Backoff.
 Require Import Selium.Regex Selium.TopicSpec Selium.TopicName.
-Require Import Selium.Bytes Selium.Utf8 Selium.Bincode Selium.Wire SeliumGen.Layouts.
+Require Import Selium.Bytes Selium.Utf8 Selium.Bincode Selium.Wire SeliumGen.Layouts Selium.Transforms.
 
 Extraction Language OCaml.
 Extraction "model.ml"
@@ -14,4 +14,5 @@ Extraction "model.ml"
   cfg_wfb spec_prefix spec_delay law
   BackoffRun.run BackoffRun.spec_obs BackoffRun.into_iter
   Wire.encode Wire.decode Wire.run_feed Wire.norm_frame Wire.encode_batch Wire.decode_batch Layouts.frame_length Utf8.utf8_valid Bytes.be_val
+  Transforms.string_decode Transforms.bytes_decode Transforms.bincode_decode Transforms.bincode_encode Transforms.c_Dummy Transforms.c_VecString Transforms.c_OptT
   TopicName.try_from TopicName.create TopicName.is_valid TopicName.print TopicSpec.name_ok.
